@@ -126,7 +126,18 @@ Fixpoint noninc (s : str) (skip : nat) : str :=
 
 (* ---- generator state: the two globals, plus a ghost log of every file whose content was scanned *)
 (* [starved]: the nesting fuel ran out somewhere (never on a finite tree with [fuel_for]; reported by the driver) *)
-Record gst := { include_dir : path; included : list path; emitted : list path; starved : bool }.
+(* [met] (ghost): every directive the expansion stood on, in reverse order: the include_dir it was resolved
+   against, its path text and what it resolved to *)
+Record gst := { include_dir : path; included : list path; emitted : list path; starved : bool;
+                met : list (path * str * option path) }.
+Definition with_met (g : gst) (e : path * str * option path) : gst :=
+  {| include_dir := include_dir g; included := included g; emitted := emitted g; starved := starved g; met := e :: met g |}.
+Definition add_inc (g : gst) (q : path) : gst :=
+  {| include_dir := include_dir g; included := q :: included g; emitted := emitted g; starved := starved g; met := met g |}.
+Definition enter (g : gst) (p : path) : gst :=
+  {| include_dir := dirname p; included := included g; emitted := p :: emitted g; starved := starved g; met := met g |}.
+Definition starve (g : gst) : gst :=
+  {| include_dir := include_dir g; included := included g; emitted := emitted g; starved := true; met := met g |}.
 Definition s_open : str := [10;47;47;32].      (* \n//_  *)
 Definition s_end : str := [10;47;47;32;101;110;100;32].        (* \n//_end_ *)
 Definition header_of (q : path) : str := s_open ++ basename q ++ [10].
@@ -147,13 +158,14 @@ Section Scan.
         match match_include s with
         | None => scan r O false g (c :: out)
         | Some (inc, mlen) =>
-          match resolve t (include_dir g) inc with
-          | None => scan r (pred mlen) true g (c :: out)                 (* return match.group(0) *)
+          let res := resolve t (include_dir g) inc in
+          let g0 := with_met g (include_dir g, inc, res) in
+          match res with
+          | None => scan r (pred mlen) true g0 (c :: out)                 (* return match.group(0) *)
           | Some q =>
-            if mem_path q (included g) then scan r (pred mlen) false g out   (* return the empty string *)
+            if mem_path q (included g) then scan r (pred mlen) false g0 out   (* return the empty string *)
             else
-              let g1 := {| include_dir := include_dir g; included := q :: included g; emitted := emitted g; starved := starved g |} in
-              let (out2, g2) := rec_process q g1 (rev_append (header_of q) out) in
+              let (out2, g2) := rec_process q (add_inc g0 q) (rev_append (header_of q) out) in
               scan r (pred mlen) false g2 (rev_append (footer_of q) out2)
           end
         end
@@ -165,13 +177,12 @@ End Scan.
    [included], so the number of files + directories is enough) *)
 Fixpoint process (fuel : nat) (t : tree) (p : path) (g : gst) (out : str) : str * gst :=
   match fuel with
-  | O => (out, {| include_dir := include_dir g; included := included g; emitted := emitted g; starved := true |})
+  | O => (out, starve g)
   | S f =>
     match lookup t p with
     | None => (out, g)                                                    (* IOError: return the empty string *)
     | Some content =>
-      let g1 := {| include_dir := dirname p; included := included g; emitted := p :: emitted g; starved := starved g |} in
-      scan t (process f t) (stripped content) O false g1 out
+      scan t (process f t) (stripped content) O false (enter g p) out
     end
   end.
 
@@ -215,7 +226,7 @@ Fixpoint main_loop (t : tree) (srcs : list path) (first : bool) (g : gst) (out :
     let (out2, g2) := process (fuel_for t) t p g (10 :: out1) in
     main_loop t r false g2 (10 :: out2)
   end.
-Definition init_state : gst := {| include_dir := []; included := []; emitted := []; starved := false |}.
+Definition init_state : gst := {| include_dir := []; included := []; emitted := []; starved := false; met := [] |}.
 Definition expand (t : tree) : str * gst := main_loop t (sources t) true init_state [].
 
 (* result_code.replace(pragma once, empty) *)
@@ -262,3 +273,7 @@ Definition generate (t : tree) : str := finish (fst (expand t)).
 (* the files whose bodies were written, in order (roots and includes), and the include set *)
 Definition emitted_files (t : tree) : list path := rev_append (emitted (snd (expand t))) [].
 Definition included_files (t : tree) : list path := rev_append (included (snd (expand t))) [].
+Definition directives_met (t : tree) : list (path * str * option path) := rev_append (met (snd (expand t))) [].
+(* every path that exists in the tree: the files and the directories on the way to them *)
+Definition proper_prefixes (p : path) : list path := map (fun k => firstn k p) (seq 0 (length p)).
+Definition all_paths (t : tree) : list path := map fst t ++ flat_map (fun qc => proper_prefixes (fst qc)) t.
